@@ -12,6 +12,7 @@ import NostrRelay.Model.Admission
 import NostrRelay.Model.Proto
 import NostrRelay.Model.Live
 import NostrRelay.Model.Handler
+import NostrRelay.Model.Announce
 
 open Lean
 
@@ -407,6 +408,18 @@ def step (st : St) (j : Json) : St × Json :=
   | "adm.canDo" =>
     let ar : Option (List Char) := match j.getObjVal? "action_roles" with | .ok (Json.str r) => some r.toList | _ => none
     (st, Json.bool (NostrRelay.Admission.canDo (AD.getBool j "enabled") ar (getStr j "token_roles").toList))
+  | "ann.run" =>
+    -- steps: [{"submit": id, "eph": bool} | {"commit": true}]
+    let b := if getStr j "backend" == "kv" then NostrRelay.Announce.Backend.kv else NostrRelay.Announce.Backend.sql
+    let steps : List NostrRelay.Announce.Step := (getArr j "steps").toList.map fun m =>
+      match m.getObjValAs? Nat "submit" with
+      | .ok n => .submit ⟨n, AD.getBool m "eph"⟩
+      | .error _ => if (m.getObjVal? "writerTake").toOption.isSome then .writerTake else .writerCommit
+    let r := NostrRelay.Announce.run b steps
+    (st, Json.mkObj [
+      ("announced", Json.arr (r.announced.map fun a => Json.arr #[Json.num a.id, Json.bool a.ephemeral, Json.bool a.loadable]).toArray),
+      ("accepted", Json.arr (r.accepted.map fun e => Json.num e.id).toArray),
+      ("queued", Json.num r.queue.length)])
   | "adm.observable" =>
     let cur := AD.bytesList (j.getObjVal? "cur" |>.toOption.getD Json.null)
     let obs := NostrRelay.Admission.observable cur (AD.parseOps (j.getObjVal? "ops" |>.toOption.getD Json.null))
